@@ -23,6 +23,9 @@ pub struct HistoryParams {
     pub checkpoint_every: usize,
     pub reopen_weight: u64,
     pub compact_weight: u64,
+    /// weight of "sink a key range to a deeper level" (level-by-level manual compaction through the
+    /// hook accessor): reaches levels 3-6, which size triggers only reach with gigabytes of data
+    pub sink_weight: u64,
     pub tiny_configs_on_reopen: bool,
     /// reopen with the same options (e.g. to keep appending to one reused WAL and manifest)
     pub keep_config_on_reopen: bool,
@@ -45,6 +48,7 @@ impl HistoryParams {
             checkpoint_every: 25,
             reopen_weight: 3,
             compact_weight: 3,
+            sink_weight: if idx % 3 == 1 { 4 } else { 0 },
             tiny_configs_on_reopen: idx % 4 != 3,
             keep_config_on_reopen: false,
         }
@@ -62,6 +66,7 @@ impl HistoryParams {
             checkpoint_every: 400,
             reopen_weight: 1,
             compact_weight: 0,
+            sink_weight: 0,
             tiny_configs_on_reopen: false,
             keep_config_on_reopen: true,
         }
@@ -132,7 +137,7 @@ pub fn run(
     let mut counter = 0u64;
     let mut since_checkpoint = 0usize;
 
-    let total_weight = 45 + 12 + 8 + 15 + params.compact_weight + params.reopen_weight + 2 + 2;
+    let total_weight = 45 + 12 + 8 + 15 + params.compact_weight + params.reopen_weight + 2 + 2 + params.sink_weight;
     for opi in 0..params.n_ops {
         watch::tick();
         outcome.ops_done = opi + 1;
@@ -247,6 +252,25 @@ pub fn run(
                                         }
                                         out.add("fills", 1);
                                     }
+                                } else if roll >= 4 {
+                                    // sink a key range one or more levels deeper
+                                    let (a, b) = match rng.below(4) {
+                                        0 => (None, None),
+                                        1 => (Some(rng.pick(&pool).clone()), None),
+                                        2 => (None, Some(rng.pick(&pool).clone())),
+                                        _ => {
+                                            let mut a = rng.pick(&pool).clone();
+                                            let mut b = rng.pick(&pool).clone();
+                                            if a > b {
+                                                std::mem::swap(&mut a, &mut b);
+                                            }
+                                            (Some(a), Some(b))
+                                        }
+                                    };
+                                    let depth = rng.range(1, 6) as usize;
+                                    let steps = sess.sink(a.as_deref(), b.as_deref(), depth);
+                                    out.add("level_by_level_compactions", steps);
+                                    checkpoint_reason = Some("after-sinking-a-range");
                                 } else {
                                     // burst of lookups (charges seeks; may trigger a seek compaction)
                                     for _ in 0..120 {
